@@ -106,6 +106,17 @@ class HistGen:
         if r < 0.25:
             max_spread = rng.choice([0, 10 ** 15, 10 ** 16, 5 * 10 ** 16, 5 * 10 ** 17, D, D + 1, rng.randrange(0, D),
                                      (1 << 64) + rng.randrange(0, D), M128])
+        if 0.1 <= r < 0.2 and x > 0 and y > 0:
+            # limit placed right at the spread this very swap will have (taken from a same-state simulation), within 1 %
+            qr = w.q(*w.q_sim(p, offer, amount))
+            if qr["r"] == "ok":
+                ret_, sp_, cm_ = int(qr["v"]["return_amount"]), int(qr["v"]["spread_amount"]), int(qr["v"]["commission_amount"])
+                if ret_ + sp_ > 0:
+                    ratio = sp_ * D // (ret_ + sp_)
+                    ratio2 = sp_ * D // (ret_ + cm_ + sp_)
+                    lo, hi = min(ratio, ratio2), max(ratio, ratio2)
+                    max_spread = max(0, rng.choice([ratio, ratio + 1, max(0, ratio - 1), rng.randrange(lo, hi + 1),
+                                                    int(ratio * rng.uniform(0.99, 1.01))]))
         if r < 0.1 and y > 0 and x > 0:
             # belief price in human units around the pool price
             do, da = p.decimals[i], p.decimals[1 - i]
